@@ -380,7 +380,11 @@ def rule_r5(ctx) -> RuleResult:
             if isinstance(n, ast.Assign) and len(n.targets) == 1 and isinstance(n.targets[0], ast.Name) and isinstance(n.value, ast.Call) \
                     and unparse(n.value.func) == "int" and n.value.args and isinstance(n.value.args[0], ast.Name) and n.value.args[0].id in strs:
                 return n.targets[0].id
-        return None
+        # converted by a helper (`position = _int_or_zero(posstr)`): the one local computed from the argument's text by a call
+        cands = {n.targets[0].id for n in walk_no_nested(fn)
+                 if isinstance(n, ast.Assign) and len(n.targets) == 1 and isinstance(n.targets[0], ast.Name) and n.targets[0].id not in strs
+                 and isinstance(n.value, ast.Call) and any(isinstance(x, ast.Name) and x.id in strs for a in n.value.args for x in ast.walk(a))}
+        return cands.pop() if len(cands) == 1 else None
 
     pos, lim = arg_var(2), arg_var(3)
     if pos is None or lim is None:
